@@ -549,9 +549,9 @@ func (o *ObjectSchema) applySubObjectDefaultValues(
 	if reflectedType.Kind() == reflect.Pointer {
 		return
 	}
-	// The same goes for a property whose struct field is a pointer although its schema reflects as the struct itself
-	// (NewStructMappedObjectSchema[T] for a field of type *T): unset, the field stays nil. It is also what ends the
-	// descent for recursive types, which Go only allows through a pointer.
+	// The same goes for a property whose struct field is a pointer or an interface although its schema reflects as the
+	// struct itself (NewStructMappedObjectSchema[T] for a field of type *T or any): unset, the field stays nil. It is
+	// also what ends the descent for recursive types, which Go does not allow through struct fields alone.
 	owner := o
 	if len(path) > 0 {
 		if converted, ok := ConvertToObjectSchema(path[len(path)-1]); ok {
@@ -560,7 +560,8 @@ func (o *ObjectSchema) applySubObjectDefaultValues(
 			}
 		}
 	}
-	if field, ok := owner.fieldCache[propertyID]; ok && field.Type.Kind() == reflect.Pointer {
+	if field, ok := owner.fieldCache[propertyID]; ok &&
+		(field.Type.Kind() == reflect.Pointer || field.Type.Kind() == reflect.Interface) {
 		return
 	}
 	var subObject Object
